@@ -398,7 +398,7 @@ def gen_case(sub, routines, scn_id, nmax=12):
                     W[a, b] = 1.0
         if fam == 'ring' and p.get('B') != 'potts':
             # exact ties everywhere; with one large uniform weight the routines' absolute 1e-10 gain threshold meets rounding noise
-            W = W * rnd.choice((1.0, 1e7, 3e7, 1e8))
+            W = W * rnd.choice((1.0, 1e7, 3e7, 1e8, 1e7 / 3))
             weighted = 'float'
         lab = np.array([1 + (x % 2) for x in range(n)])
     if rnd.random() < 0.15 and p.get('B') != 'potts':
@@ -441,6 +441,12 @@ def gen_case(sub, routines, scn_id, nmax=12):
         S = (W + W.T) / 2
         W = S * (1 + 1e-7 * np.array([[rnd.uniform(-1, 1) for _ in range(n)] for _ in range(n)]))
         weighted = 'float'
+    narrow8 = False
+    if weighted == 'int' and kind != 'sign' and rnd.random() < 0.03:
+        # small integer weights held in an 8-bit container: the optimisers accumulate degrees in the container's dtype
+        W = W.astype(rnd.choice((np.uint8, np.int8)))
+        narrow8 = True
+        weighted = 'float'  # no further container games
     r = rnd.random()
     meta_f32 = False
     if weighted != 'float' and r < 0.12:
@@ -458,7 +464,7 @@ def gen_case(sub, routines, scn_id, nmax=12):
         start = start.astype(float)  # labels held in a float vector, as MATLAB users pass them
     case = {'scn': scn_id, 'routine': routine, 'W': enc(W), 'params': p, 'seed': sub, 'policy': pick_policy(rnd), 'budget': 40000,
             'trace': None, 'start': enc(start) if start is not None else None, 'feedback': feedback, 'cross': cross,
-            'meta': {'n': n, 'kind': kind, 'k': k, 'onesign': onesign, 'f32': meta_f32}}
+            'meta': {'n': n, 'kind': kind, 'k': k, 'onesign': onesign, 'f32': meta_f32, 'narrow8': narrow8}}
     return case
 
 
